@@ -1869,6 +1869,82 @@ theorem riPublic_none_coherent (r : Nat) (bs : Shape) (names : Names) (es : List
   simp only [riPublic, h0, if_false, hrank, if_true, h1]
   simpa using h2
 
+/-- torch's `repeat_interleave(tensor, dim)` on a leaf commutes with the batch view -/
+theorem repeat_interleave_list_leaf_commutes (t : T α) (n d : Nat) (rs : List Nat) (hd : d < n) (hn : n ≤ t.rank) :
+    asBatch n (T.repeatInterleaveL rs d t) ≈ₜₜ T.repeatInterleaveL rs d (asBatch n t) := by
+  unfold T.rank at hn
+  have htk : (t.shape.set d rs.sum).take n = (t.shape.take n).set d rs.sum := by
+    rw [List.take_set]
+  have hdr : (t.shape.set d rs.sum).drop n = t.shape.drop n := by
+    apply List.ext_getElem?; intro k
+    simp [List.getElem?_drop, List.getElem?_set]; grind
+  apply asBatch_eqv2
+  · simp only [T.repeatInterleaveL, asBatch]; exact htk
+  · intro c hc
+    have hcl : c.length = n := by
+      have := InB.length_eq hc
+      simp only [T.repeatInterleaveL] at this; rw [htk] at this; simp at this; omega
+    refine ⟨by simp only [T.repeatInterleaveL, asBatch]; exact hdr, ?_⟩
+    intro f _
+    simp only [T.repeatInterleaveL, asBatch]
+    rw [modify_append_left c f d _ (by omega)]
+
+mutual
+/-- whole-tree `repeat_interleave(tensor of counts, dim)`: on a coherent tree, with one count per position of batch dim `d`, the op succeeds on
+every entry at every depth and the result is coherent with the batch size whose dim `d` is the SUM of the counts -/
+theorem riListNode_coh (rs : List Nat) (d : Nat) (bs : Shape) (names : Names) (es : List (String × TD α))
+    (hd : d < bs.length) (hrs : rs.length = bs.getD d 0) (hc : CoherentList bs es) :
+    ∃ nm es', riListNode rs (d : Int) bs names es = .ok (.node (bs.set d rs.sum) nm es') ∧ CoherentList (bs.set d rs.sum) es' := by
+  obtain ⟨es', h1, h2⟩ := riListEntries_coh rs d bs es hd hrs hc
+  refine ⟨normNames names, es', ?_, h2⟩
+  rw [riListNode]
+  have h0 : ((d : Int) ≥ 0) := by omega
+  have hin2 : (0 ≤ (d : Int) ∧ (d : Int) < (bs.length : Nat)) := by omega
+  simp [h0, hin2, h1, ← List.getD_eq_getElem?_getD, hrs]
+termination_by (sizeOf es, 1)
+
+theorem riListEntries_coh (rs : List Nat) (d : Nat) (bs : Shape) (es : List (String × TD α))
+    (hd : d < bs.length) (hrs : rs.length = bs.getD d 0) (hc : CoherentList bs es) :
+    ∃ es', riListEntries rs d es = .ok es' ∧ CoherentList (bs.set d rs.sum) es' := by
+  match es, hc with
+  | [], _ => exact ⟨[], by simp [riListEntries], by simp [CoherentList]⟩
+  | (k, e) :: rest, hc =>
+    simp only [CoherentList] at hc
+    obtain ⟨e', he, hp, hce⟩ := riListEntry_coh rs d bs e hd hrs hc.1 hc.2.1
+    obtain ⟨rest', hrest, hcr⟩ := riListEntries_coh rs d bs rest hd hrs hc.2.2
+    refine ⟨(k, e') :: rest', ?_, ?_⟩
+    · rw [riListEntries]; simp only [he, hrest]
+    · simp only [CoherentList]; exact ⟨hp, hce, hcr⟩
+termination_by (sizeOf es, 0)
+
+theorem riListEntry_coh (rs : List Nat) (d : Nat) (bs : Shape) (e : TD α)
+    (hd : d < bs.length) (hrs : rs.length = bs.getD d 0) (hp : PrefixOK bs e) (hc : Coherent e) :
+    ∃ e', riListEntry rs d e = .ok e' ∧ PrefixOK (bs.set d rs.sum) e' ∧ Coherent e' := by
+  match e, hp, hc with
+  | .leaf t, hp, _ =>
+    simp only [PrefixOK] at hp
+    have hg : t.shape.getD d 0 = bs.getD d 0 := getD_of_take hp hd
+    obtain ⟨ext, hext⟩ := prefix_split bs t.shape hp
+    have hrank : d < t.rank := by unfold T.rank; rw [hext]; simp; omega
+    refine ⟨.leaf (T.repeatInterleaveL rs d t), ?_, ?_, by simp [Coherent]⟩
+    · rw [riListEntry]; simp [hrank, hg, hrs, ← List.getD_eq_getElem?_getD]
+    · simp only [PrefixOK, T.repeatInterleaveL]
+      exact set_take_prefix _ _ d _ hp hd
+  | .node bs2 nm2 es2, hp, hc =>
+    simp only [PrefixOK] at hp
+    obtain ⟨ext, rfl⟩ := prefix_split bs bs2 hp
+    simp only [Coherent] at hc
+    have hg : (bs ++ ext).getD d 0 = bs.getD d 0 := by
+      rw [List.getD_eq_getElem?_getD, List.getElem?_append_left hd, ← List.getD_eq_getElem?_getD]
+    obtain ⟨nm, es', h1, h2⟩ := riListNode_coh rs d (bs ++ ext) nm2 es2 (by simp; omega) (by rw [hg]; exact hrs) hc
+    rw [set_append_left bs ext d _ hd] at h1 h2
+    refine ⟨.node (bs.set d rs.sum ++ ext) nm es', ?_, ?_, ?_⟩
+    · rw [riListEntry]; exact h1
+    · simp only [PrefixOK]; exact List.take_left' rfl
+    · simp only [Coherent]; exact h2
+termination_by (sizeOf e, 0)
+end
+
 /-- torch.stack on leaves commutes with the batch view: stacking the leaves along a batch dim is stacking their batch views
 (every operand of shape `s`, `dim ≤ n ≤ rank`) -/
 theorem stack_leaf_commutes [Inhabited α] (ts : List (T α)) (s : Shape) (n dim : Nat)
